@@ -43,6 +43,8 @@ func rsJudgeTrace(trace string, startUnix, endUnix int64) rsVerdict {
 	var lastID uint64
 	var lastSeq uint64
 	var owedSalts []int64
+	var startSalt int64 // the salt the (resumed) session started with: that of the first message the client wrote
+	haveStart := false
 	var storedSalts []int64
 	needAck := map[uint64]bool{}
 	acked := map[uint64]bool{}
@@ -89,7 +91,8 @@ func rsJudgeTrace(trace string, startUnix, endUnix int64) rsVerdict {
 			} else {
 				v.warnings++
 			}
-		case d == "upd" || d == "unk" || d == "trunc" || d == "gzbad" || d == "toodeep":
+		case d == "upd" || d == "unk" || d == "trunc" || d == "gzbad" || d == "toodeep" || strings.HasPrefix(d, "svc("):
+			// svc(…): a well-formed service request / informational message the client has no use for
 			v.warnings++
 		}
 	}
@@ -108,6 +111,9 @@ func rsJudgeTrace(trace string, startUnix, endUnix int64) rsVerdict {
 			mid, _ := strconv.ParseUint(p[2], 10, 64)
 			seq, _ := strconv.ParseUint(p[3], 10, 64)
 			salt, _ := strconv.ParseInt(p[4], 10, 64)
+			if !haveStart && len(owedSalts) == 0 {
+				startSalt, haveStart = salt, true
+			}
 			if mid%4 != 0 {
 				fail(&v.c10, "msg_id %d is not a multiple of four", mid)
 			}
@@ -126,8 +132,17 @@ func rsJudgeTrace(trace string, startUnix, endUnix int64) rsVerdict {
 			lastID, lastSeq = mid, seq
 			switch p[5] {
 			case "q":
-				if seq%2 != 1 {
-					fail(&v.c10, "content-related message %d carries the even seq_no %d", mid, seq)
+				// a request of a caller; the sixth field names its constructor when it is not ping. Whether it is
+				// content-related (odd seq_no) is decided by the peer's own reading of the MTProto description
+				ctor := uint64(rsCrcPing)
+				if len(p) >= 7 {
+					ctor, _ = strconv.ParseUint(p[6], 16, 32)
+				}
+				if rsContentRelated(uint32(ctor)) && seq%2 != 1 {
+					fail(&v.c10, "content-related message %d (constructor %08x) carries the even seq_no %d", mid, ctor, seq)
+				}
+				if !rsContentRelated(uint32(ctor)) && seq%2 != 0 {
+					fail(&v.c10, "message %d (constructor %08x) is not content-related and carries the odd seq_no %d", mid, ctor, seq)
 				}
 				c, _ := strconv.Atoi(p[1])
 				sendsOf[c]++
@@ -208,7 +223,21 @@ func rsJudgeTrace(trace string, startUnix, endUnix int64) rsVerdict {
 	for c := range mustResend {
 		fail(&v.c11, "caller %d's rejected request was not sent again", c)
 	}
-	if fmt.Sprint(owedSalts) != fmt.Sprint(storedSalts) {
+	// what the store HOLDS after every announcement is what the client adopted: writing a salt the store already
+	// holds (again, or not at all) makes no difference to that, so runs of equal values count once, starting from
+	// the salt the session was resumed with
+	holds := func(xs []int64) []int64 {
+		var out []int64
+		prev, have := startSalt, haveStart
+		for _, x := range xs {
+			if !have || x != prev {
+				out = append(out, x)
+			}
+			prev, have = x, true
+		}
+		return out
+	}
+	if fmt.Sprint(holds(owedSalts)) != fmt.Sprint(holds(storedSalts)) {
 		fail(&v.c11, "salts adopted %v, salts written to the session store %v", owedSalts, storedSalts)
 	}
 	for c, n := range sendsOf {
